@@ -149,9 +149,12 @@ def compare_results(ra, rb, rtol=1e-9, atol=1e-9, skip_cols=(), colmap=None):
             if (a is None) != (b is None):
                 diffs.append((eid, "<row>", a is None, b is None))
             continue
+        zero_flow = abs(a.get("mdot_from_kg_per_s", 1.0)) < 1e-9 or abs(b.get("mdot_from_kg_per_s", 1.0)) < 1e-9
         for c, va in a.items():
             if c in skip_cols or c not in b:
                 continue
+            if zero_flow and c in ("lambda", "reynolds"):
+                continue  # friction factor / Reynolds number of a branch without flow are round-off noise
             vb = b[c]
             if np.isnan(va) and np.isnan(vb):
                 continue
